@@ -55,6 +55,7 @@ type c02wfModel struct {
 	AltsComplete bool            `json:"altsComplete"` // the exploration of all schedules finished within its budget
 	Possible     []gcase.TaskJ   `json:"possible"`     // failing cases: every (node, input) submitted under some schedule
 	WF           *bool           `json:"wf"`           // the model's compiled runner satisfies DagWF (hypothesis of workflow_at_most_once)
+	WF2          *bool           `json:"wf2"`          // ... and DagWF2 (hypothesis of dag_enabled_nodes_start)
 }
 
 // set once a scripted completion order could not be followed (each such run costs a 15 s
@@ -335,6 +336,7 @@ func c02wfOne(ctx *vh.Ctx, c *c02wfCase, specs []c02wfRunSpec) error {
 	var okSpec c02wfRunSpec
 	wfHyp := model.WF != nil && *model.WF
 	ctx.Res.Dist(fmt.Sprintf("wf-hypothesis=%v", wfHyp))
+	ctx.Res.Dist(fmt.Sprintf("wf2-hypothesis=%v", model.WF2 != nil && *model.WF2))
 	for _, sp := range specs {
 		impl := c02wfCompare(ctx, c, model, sp)
 		if impl != nil && !wfHyp {
